@@ -38,6 +38,7 @@ type config struct {
 	v2    bool
 	dir   bool // v2: directory back end (else in-memory)
 	cache int  // v1: keystore.WithoutCache(-1) / 1 / keystore.InfiniteCacheSize(0)
+	variant string // Redis: "(key-prefix-with-glob-metacharacters)" when the prefix holds one of * ? [ ] \ (part of the signature)
 	redis bool // Redis-backed variant (redis.go): v1 over filesystem.RedisStorage, v2 over backend.RedisBackend
 }
 
@@ -57,7 +58,7 @@ func (c config) fmtName() string {
 		n = "v2"
 	}
 	if c.redis {
-		return "redis " + n // signatures of the Redis layer start with "redis "
+		return "redis " + n + c.variant // signatures of the Redis layer start with "redis "
 	}
 	return n
 }
@@ -69,7 +70,7 @@ func (c config) fName() string {
 		n = "v2"
 	}
 	if c.redis {
-		return "redis faulted-history " + n
+		return "redis faulted-history " + n + c.variant
 	}
 	return "faulted-history " + n
 }
